@@ -160,6 +160,10 @@ func c05ActiveScan(r *Run, site *decisionSite) {
 // ---- C07 / C08 ---------------------------------------------------------------------------------
 
 func c07Imports(r *Run) {
+	r.Floor("C07.R11", 3)
+	r.ImportFromIf(runC05, map[string]string{"C05.R6": "C07.R11"}, map[string]string{
+		"C07.R11": "the ExtendedDaemonSet controller's failed reader answers no only when the replica set's Canary-Failed condition is not true: no other condition (e.g. Canary=False written by the replica-set controller between the status write and the spec write of the rollback) can mask a failed canary before spec.template is restored"},
+		func(o *Obligation) bool { return strings.Contains(o.Key, "IsCanaryDeploymentFailed") })
 	r.Floor("C07.R7", 6)
 	r.Floor("C07.R10", 3)
 	r.ImportFrom(runC09, map[string]string{"C09.R3": "C07.R10"}, map[string]string{
@@ -388,6 +392,10 @@ func c03SecondsUnit(r *Run) {
 // canary nodes is an error return (the label patch failed); a node without a pod or a pod of
 // another replica set is skipped, it does not end the loop for the remaining nodes.
 func c04LabelLoopExits(r *Run) {
+	r.Floor("C04.R11", 4)
+	r.ImportFromIf(runC09, map[string]string{"C09.R3": "C04.R11"}, map[string]string{
+		"C04.R11": "the start of the rolling update, which opens the window in which the canary label is removed from the pods of a promoted replica set, is the LastTransitionTime of the Active condition only while that condition is True (a stale Active=False stamp from the canary phase would close the window before the first active sync and leave the label on for ever)"},
+		func(o *Obligation) bool { return strings.Contains(o.Key, "ramp origin") })
 	r.RuleDoc("C04.R8", "the canary-label loop over the canary nodes is left early only with the error of a failed label write")
 	r.Floor("C04.R8", 1)
 	_, reach := ersReconcile(r)
@@ -513,6 +521,9 @@ func c17Imports(r *Run) {
 }
 
 func c11MoreImports(r *Run) {
+	r.Floor("C11.R9", 1)
+	r.ImportFrom(runC04, map[string]string{"C04.R10": "C11.R9"}, map[string]string{
+		"C11.R9": "labelling the canary pods is level-triggered: the label pass is reached on every non-error return of the canary strategy, so a rejected or lost label Patch is retried by the next reconcile whatever the persisted counters say"})
 	r.Floor("C11.R8", 8)
 	r.ImportFrom(runC14, map[string]string{"C14.R2": "C11.R8"}, map[string]string{
 		"C11.R8": "the replica-set counters, which the ExtendedDaemonSet controller takes decisions from (delete when all are zero), are written only from values computed by a planner on a non-error return — never zeroed or guessed on a failed read"})
